@@ -7,6 +7,7 @@ import AdfObdd.OpsProofs
 import AdfObdd.TTSpec
 import AdfObdd.TTDepthPaths
 import AdfObdd.CountsWord
+import AdfObdd.CubesExact
 /-! # C13 — counts, depth, supports and path cubes of a diagram are exact
 
 Model: `countF` (= `modelcount_naive`: counter-models, models, depth), `pathsF`, `depsF`
@@ -27,25 +28,24 @@ theorem models_exact_ratio (s : Store) (w : WF s) (t : Nat) (ht : t < s.nodes.si
 theorem deps_are_essential (s : Store) (w : WF s) (t x : Nat) (ht : t < s.nodes.size) :
     x ∈ depsOf s t ↔ Essential (eval s t) x := deps_exact s w t x ht
 
-/-- passive impact of `v` = number of listed diagrams whose function depends on `v` -/
+open Classical in
+/-- passive impact of `v` = the number of listed diagrams whose FUNCTION essentially depends on
+`v` (`Essential f v`: some assignment at which flipping `v` changes `f` - a notion that does not
+mention the diagram). `decide` is the classical decision of that proposition; nothing here is
+definitional: the model `passive` counts occurrences of `v` in the node lists `depsOf`. -/
 theorem passive_counts_dependents (s : Store) (w : WF s) (v : Nat) (ts : List Nat)
     (hts : ∀ t ∈ ts, t < s.nodes.size) :
-    passive s v ts = (ts.filter (fun t => (depsOf s t).contains v)).length ∧
-    ∀ t ∈ ts, ((depsOf s t).contains v = true ↔ Essential (eval s t) v) := by
-  refine ⟨rfl, ?_⟩
-  intro t ht
-  rw [List.contains_iff_mem]
-  exact deps_exact s w t v (hts t ht)
+    passive s v ts = ts.countP (fun t => decide (Essential (eval s t) v)) :=
+  passive_eq_countP s w v ts hts
 
-/-- active impact of `v` = number of statements (positions) the diagram listed at position `v` depends on -/
+open Classical in
+/-- active impact of `v` = the number of statements (positions `i < |ts|`) the FUNCTION of the
+diagram listed at position `v` essentially depends on. `v < ts.length` is required (the code
+indexes `termlist[var.value()]` and panics otherwise; the model's `getD` would speak about ⊥). -/
 theorem active_counts_dependencies (s : Store) (w : WF s) (v : Nat) (ts : List Nat)
-    (hv : ts.getD v 0 < s.nodes.size) :
-    active s v ts = ((List.range ts.length).filter (fun i => (depsOf s (ts.getD v 0)).contains i)).length ∧
-    ∀ i, ((depsOf s (ts.getD v 0)).contains i = true ↔ Essential (eval s (ts.getD v 0)) i) := by
-  refine ⟨rfl, ?_⟩
-  intro i
-  rw [List.contains_iff_mem]
-  exact deps_exact s w _ i hv
+    (hv : v < ts.length) (ht : ts[v] < s.nodes.size) :
+    active s v ts = (List.range ts.length).countP (fun i => decide (Essential (eval s ts[v]) i)) :=
+  active_eq_countP s w v ts hv ht
 
 /-- every enumerated path cube lies inside the (counter-)models -/
 theorem cubes_are_sound (s : Store) (w : WF s) (t : Nat) (goal : Bool) (gv : Nat) (ht : t < s.nodes.size)
@@ -69,8 +69,44 @@ theorem cubes_terminal (s : Store) (t : Nat) (goal : Bool) (gv : Nat) (ht : t < 
     cubesF s (t+1) t goal gv [] [] = [] := by
   simp [cubesF, ht]
 
-/-- 'more models than counter-models' is true iff models ≥ counter-models (repaired body, D4) -/
-theorem more_models_iff (cm m : Nat) : moreModels (cm, m) = true ↔ m ≥ cm := by
+/-- **the cube clause in one statement, true for EVERY handle `t` of a well-formed store**, every
+goal value and every goal variable (`cs` = the result of `interpretations(t, goal, gv, [], [])`):
+* the cubes are pairwise disjoint;
+* each cube is sound (all its assignments give the function the goal value) and is consistent
+  with the goal variable: it never fixes `gv` to the non-goal value, so moving an assignment of
+  the cube to `gv := goal` stays inside the cube;
+* for a NON-TERMINAL `t`: among the assignments that give the goal variable the goal value, the
+  cubes cover exactly the (counter-)models of the function;
+* for a TERMINAL `t` (⊥ or ⊤) the result is EMPTY - also where every assignment is a
+  (counter-)model. This is the documented exception to "cover exactly" (the code returns
+  `Vec::new()` first thing, a unit test pins it; DESIGN §5 "Readings fixed here"). -/
+theorem cubes_exact (s : Store) (w : WF s) (t : Nat) (goal : Bool) (gv : Nat) (ht : t < s.nodes.size) :
+    (cubesF s (t+1) t goal gv [] []).Pairwise DisjPC ∧
+    (∀ c ∈ cubesF s (t+1) t goal gv [] [], ∀ σ, InPC c σ →
+        eval s t σ = goal ∧ InPC c (upd σ gv goal)) ∧
+    (2 ≤ t → ∀ σ, σ gv = goal →
+        (eval s t σ = goal ↔ ∃ c ∈ cubesF s (t+1) t goal gv [] [], InPC c σ)) ∧
+    (t < 2 → cubesF s (t+1) t goal gv [] [] = []) := by
+  refine ⟨cubes_pairwise_disjoint s w t goal gv ht, ?_, ?_, cubes_terminal s t goal gv⟩
+  · intro c hc σ hin
+    exact ⟨cubes_are_sound s w t goal gv ht c σ hc hin, cube_allows_goal s t goal gv c hc σ hin⟩
+  · intro ht2 σ hgv
+    constructor
+    · exact cubes_do_cover s w t goal gv ht ht2 σ hgv
+    · intro ⟨c, hc, hin⟩
+      exact cubes_are_sound s w t goal gv ht c σ hc hin
+
+/-- 'more models than counter-models' (`ModelCounts::more_models`, repaired body D4) applied to
+the MODEL counts of a diagram is true iff at least as many assignments (to any strictly ascending
+variable list `vs` containing the diagram's variables) satisfy the function as falsify it -/
+theorem more_models_iff (s : Store) (w : WF s) (t : Nat) (ht : t < s.nodes.size)
+    (vs : List Nat) (hvs : vs.Pairwise (· < ·)) (hdeps : ∀ x ∈ depsF s (t+1) t, x ∈ vs) (base : Asg) :
+    moreModels ((countF s (t+1) t).1, (countF s (t+1) t).2.1) = true ↔
+      sat (eval s t) base vs ≥ sat (fun σ => !eval s t σ) base vs := by
+  have h1 := models_exact_ratio s w t ht vs hvs hdeps base
+  have h2 := cmodels_ratio s w (t+1) t ht (Nat.lt_succ_self _) vs hvs hdeps base
+  have := ratio_ge_iff _ _ _ _ _ _ (Nat.pow_pos (by decide : 0 < 2)) (Nat.pow_pos (by decide : 0 < 2)) h1 h2
+  rw [← this]
   simp [moreModels]
 
 /-- the unrepaired comparison `models ≥ min models cmodels` was always true: D4 -/
@@ -349,3 +385,124 @@ end C13
 #print axioms C13.count_word_exact
 #print axioms C13.counts_overflow_at_65
 #print axioms C13.counts_exact_up_to_64
+
+/-! ## repairs after the review of 2026-09-27 (top-9): statements placed after the theorems they use -/
+namespace C13
+
+/-- the same two measures against the executable truth-table specification: if `tts[k]` is a
+table over `nv` variables representing the function of `ts[k]` (and the diagrams' variables are
+below `nv`), then the impacts are the counts of `TT.deps` memberships - every term computable -/
+theorem impacts_vs_truth_tables (s : Store) (w : WF s) (v nv : Nat) (ts tts : List Nat)
+    (hlen : tts.length = ts.length) (hts : ∀ t ∈ ts, t < s.nodes.size)
+    (hrep : ∀ k (hk : k < ts.length), TT.Rep nv (tts[k]'(hlen ▸ hk)) (eval s ts[k]))
+    (hdeps : ∀ t ∈ ts, ∀ x ∈ depsF s (t+1) t, x < nv) :
+    passive s v ts = ((List.range ts.length).filter (fun k => (TT.deps nv (tts.getD k 0)).contains v)).length ∧
+    (∀ _hv : v < ts.length, active s v ts =
+      ((List.range ts.length).filter (fun i => (TT.deps nv (tts.getD v 0)).contains i)).length) := by
+  have key : ∀ k (hk : k < ts.length) x, x ∈ depsOf s ts[k] ↔ x ∈ TT.deps nv (tts.getD k 0) := by
+    intro k hk x
+    have e : tts.getD k 0 = tts[k]'(hlen ▸ hk) := by simp [List.getD, hlen, hk]
+    rw [e]
+    exact (counts_vs_truth_table s w ts[k] (hts _ (List.getElem_mem hk)) nv _ (hrep k hk)
+      (hdeps _ (List.getElem_mem hk))).2.2 x
+  constructor
+  · unfold passive
+    rw [← List.countP_eq_length_filter, ← List.countP_eq_length_filter]
+    have : ts = (List.range ts.length).map (fun k => ts.getD k 0) := by
+      apply List.ext_getElem (by simp)
+      intro i h1 h2; simp [List.getD, h1]
+    conv => lhs; rw [this]
+    rw [List.countP_map]
+    apply List.countP_congr
+    intro k hk
+    have hk' := List.mem_range.mp hk
+    have e : ts.getD k 0 = ts[k] := by simp [List.getD, hk']
+    simp only [Function.comp, e, List.contains_iff_mem]
+    exact key k hk' v
+  · intro hv
+    unfold active
+    have e : ts.getD v 0 = ts[v] := by simp [List.getD, hv]
+    rw [e, ← List.countP_eq_length_filter, ← List.countP_eq_length_filter]
+    apply List.countP_congr
+    intro i _
+    simp only [List.contains_iff_mem]
+    exact key v hv i
+
+/-- … and applied to the PATH counts (`Bdd::paths(t).more_models()`, what the counting heuristics
+and the counting-guided search evaluate): true iff at least as many root-to-leaf paths of the
+unfolding end in ⊤ as end in ⊥ -/
+theorem more_models_paths_iff (s : Store) (w : WF s) (t : Nat) :
+    moreModels (paths s t) = true ↔
+      (pathsList s (t+1) t).countP (fun p => p.2) ≥ (pathsList s (t+1) t).countP (fun p => !p.2) := by
+  have ⟨_, _, _, h1, h2⟩ := paths_exact s w t
+  rw [← h1, ← h2]
+  simp [moreModels]
+
+/-- … and on a diagram of at most 64 levels the same holds for the numbers the 64-bit code
+computes (`countW`, see the last section) -/
+theorem more_models_word_iff (s : Store) (w : WF s) (t : Nat) (ht : t < s.nodes.size)
+    (hd : (countF s (t+1) t).2.2 ≤ 64)
+    (vs : List Nat) (hvs : vs.Pairwise (· < ·)) (hdeps : ∀ x ∈ depsF s (t+1) t, x ∈ vs) (base : Asg) :
+    moreModels ((countW s (t+1) t).1, (countW s (t+1) t).2.1) = true ↔
+      sat (eval s t) base vs ≥ sat (fun σ => !eval s t σ) base vs := by
+  rw [countW_eq_countF s w.table (t+1) t ht (Nat.lt_succ_self _) hd]
+  exact more_models_iff s w t ht vs hvs hdeps base
+
+/-- the conjunction x0 ∧ x1 built by two `mkNode` calls: handle 3, table ⊥, ⊤, (1,⊥,⊤), (0,⊥,2) -/
+def and01Store : Store := (mkNode x1Store 0 0 2).1
+
+theorem and01Store_nodes : and01Store.nodes = #[⟨VBOT, 0, 0⟩, ⟨VTOP, 1, 1⟩, ⟨1, 0, 1⟩, ⟨0, 0, 2⟩] := by
+  simp [and01Store, x1Store, mkNode, Store.init]
+
+theorem and01Store_WF : WF and01Store :=
+  (mkNode_spec x1Store x1Store_WF 0 0 2 (by simp [x1Store_nodes]) (by simp [x1Store_nodes])
+    (by simp [VBOT]) (by simp [topVar, x1Store_nodes, VBOT]) (by simp [topVar, x1Store_nodes])).1
+
+/-- non-vacuity of `cubes_exact` on a non-terminal handle with a NON-EMPTY cube list: the
+counter-model cubes of x0 ∧ x1 (goal variable 5, not in the diagram) are `x0 ∧ ¬x1` and `¬x0`;
+with goal variable 0 and goal `true` only the first survives for the counter-models, and the
+model cube is `x0 ∧ x1`; the store is well formed and 3 is a handle of it -/
+example : WF and01Store ∧ 3 < and01Store.nodes.size ∧
+    cubesF and01Store 4 3 false 5 [] [] = [([1], [0]), ([0], [])] ∧
+    cubesF and01Store 4 3 false 0 [] [] = [([0], [])] ∧
+    cubesF and01Store 4 3 true 0 [] [] = [([], [0, 1])] ∧
+    cubesF and01Store 4 3 true 1 [] [] = [([], [0, 1])] := by
+  refine ⟨and01Store_WF, by simp [and01Store_nodes], ?_, ?_, ?_, ?_⟩ <;>
+    simp [cubesF, and01Store_nodes]
+
+/-- … and the terminal exception: on the same store the handles ⊥, ⊤ have no cube although
+every assignment is a counter-model of ⊥ -/
+example : cubesF and01Store 1 0 false 5 [] [] = [] ∧ (∀ σ, eval and01Store 0 σ = false) :=
+  ⟨(cubes_exact and01Store and01Store_WF 0 false 5 (by simp [and01Store_nodes])).2.2.2 (by decide),
+   fun σ => eval_zero _ σ⟩
+
+/-- non-vacuity of the impact theorems: over the list `[3, 2]` (statement 0 has condition
+x0 ∧ x1, statement 1 has condition x1) the hypotheses hold, passive impact of variable 1 is 2,
+of variable 0 is 1, active impact of statement 0 is 2 and of statement 1 is 1 -/
+example : (∀ t ∈ [3, 2], t < and01Store.nodes.size) ∧
+    passive and01Store 1 [3, 2] = 2 ∧ passive and01Store 0 [3, 2] = 1 ∧
+    active and01Store 0 [3, 2] = 2 ∧ active and01Store 1 [3, 2] = 1 := by
+  refine ⟨by simp [and01Store_nodes], ?_, ?_, ?_, ?_⟩ <;>
+    simp [passive, active, depsOf, depsF, and01Store_nodes] <;> decide
+
+/-- non-vacuity of `more_models_iff`: x0 ∧ x1 over the variables [0, 1] has 3 counter-models and
+one model, so `more_models` is false, and so says the count of assignments -/
+example : ([0, 1] : List Nat).Pairwise (· < ·) ∧ (∀ x ∈ depsF and01Store 4 3, x ∈ [0, 1]) ∧
+    countF and01Store 4 3 = (3, 1, 2) ∧
+    ¬ (sat (eval and01Store 3) (fun _ => false) [0, 1] ≥
+        sat (fun σ => !eval and01Store 3 σ) (fun _ => false) [0, 1]) := by
+  have hd : ∀ x ∈ depsF and01Store 4 3, x ∈ [0, 1] := by simp [depsF, and01Store_nodes]
+  have hc : countF and01Store 4 3 = (3, 1, 2) := by simp [countF, and01Store_nodes]
+  refine ⟨by simp, hd, hc, ?_⟩
+  rw [← more_models_iff and01Store and01Store_WF 3 (by simp [and01Store_nodes]) [0, 1] (by simp) hd, hc]
+  simp [moreModels]
+
+end C13
+
+#print axioms C13.cubes_exact
+#print axioms C13.passive_counts_dependents
+#print axioms C13.active_counts_dependencies
+#print axioms C13.impacts_vs_truth_tables
+#print axioms C13.more_models_iff
+#print axioms C13.more_models_paths_iff
+#print axioms C13.more_models_word_iff
